@@ -84,7 +84,7 @@ CHECKS = {
              essential=_ALL_SCHEMAS + ["schema=3.0.0", "file=m.db", "file=p.db", "effective-mutant", "equivalent-mutant"] +
                        [f + k for f in ("1.x:", "2.x:") for k in ['drop-table', 'rename-table', 'add-table', 'drop-view', 'rename-view', 'add-view', 'add-column', 'drop-column', 'rename-column', 'change-type', 'add-notnull', 'add-default', 'drop-index', 'add-index', 'flip-unique', 'reorder-columns', 'drop-default',
                                                                          'change-default', 'drop-notnull', 'drop-pk']] +
-                       ["effective:1.x:drop-default", "effective:1.x:change-default", "effective:1.x:drop-notnull", "effective:2.x:drop-notnull",
+                       ["effective:1.x:drop-default", "effective:1.x:change-default", "effective:2.x:drop-notnull", "effective:2.x:drop-pk",
                         "effective:1.x:add-default", "effective:2.x:add-default", "effective:1.x:change-type", "effective:2.x:change-type"]),
         dict(prop="C17.refs", harness="schema_pbt", quick=dict(count="enum", workers=8), thorough=dict(count="enum", workers=8),
              essential=[x for x in _ALL_SCHEMAS if x != "schema=1.6.0"]),
